@@ -225,4 +225,112 @@ theorem uart_tx_finishes (tw : Nat) (h0 : 0 < tw) (htw : tw < M32) (s : TxSt) (h
 
 example : (10 * M32 - 1) / 0x55555555 + 1 = 31 := by decide
 
+/-! ## UART receiver -/
+
+/-- **uart_rx_sample_points.**  `ln k` is the synchronised line in RUN cycle `k` (RUN cycle 0 is the cycle after the
+    start edge `rx = 0 ∧ rx_d = 1` was seen; the pad is two synchroniser registers earlier).  For every line, every
+    `tw < 2^32` and every cycle `r` up to the end of the frame: a tick in cycle `r` takes sample number `count + 1` and
+    `r` is that sample's nominal cycle `⌈(n − ½)·2^32/tw⌉`; the shift register holds the samples taken so far; the frame
+    completes exactly when `2^31 + r·tw ≥ 10·2^32`. -/
+theorem uart_rx_sample_points (tw : Nat) (htw : tw < M32) (ln : Nat → Bool) (s0 : RxSt) (hrun : s0.run = true)
+    (hc : s0.count = 0) (hacc : s0.acc = ⟨HALF32, false⟩) (hrx : s0.rx = ln 0) (hr0 : s0.r0 = ln 1)
+    (r : Nat) (hr : HALF32 + r * tw < 10 * M32 + tw) :
+    let st := runFn (uartRx tw) s0 (fun k => ln (k + 2)) r
+    st.run = true ∧ st.rx = ln r ∧
+    (st.acc.tick = true → r = rxSampleCycle tw (st.count + 1)) ∧
+    st.data = rxData ln tw s0.data st.count ∧
+    (rxDone st = true ↔ 10 * M32 ≤ HALF32 + r * tw) := by
+  intro st
+  have hinv : RxInv tw ln s0.data r st := rx_run tw htw ln s0.data s0 (rx_inv_entry tw ln s0 hrun hc hacc hrx hr0) r hr
+  exact ⟨hinv.run, hinv.rx, rx_tick_cycle tw ln s0.data r st hinv, hinv.data, rx_done_iff tw ln s0.data r st hinv⟩
+
+/-- **The received byte.**  The frame ends in the cycle of the tenth sample, `R = ⌈9.5·2^32/tw⌉` (it always ends for
+    `tw ≥ 1`); there `source.valid` is the line value (the stop-bit check), bit `k` of `source.data` is the line at
+    sample `k + 2` (LSB first), no byte was produced earlier, and the receiver returns to IDLE. -/
+theorem uart_rx_frame (tw : Nat) (h0 : 0 < tw) (htw : tw < M32) (ln : Nat → Bool) (s0 : RxSt) (hrun : s0.run = true)
+    (hc : s0.count = 0) (hacc : s0.acc = ⟨HALF32, false⟩) (hrx : s0.rx = ln 0) (hr0 : s0.r0 = ln 1)
+    (hdat : s0.data < 256) :
+    let R := rxSampleCycle tw 10
+    let st := runFn (uartRx tw) s0 (fun k => ln (k + 2)) R
+    ((uartRx tw).out st (ln (R + 2))).valid = ln R ∧
+    (∀ k, k < 8 → ((uartRx tw).out st (ln (R + 2))).data.testBit k = ln (rxSampleCycle tw (k + 2))) ∧
+    ((uartRx tw).out st (ln (R + 2))).data < 256 ∧
+    ((uartRx tw).next st (ln (R + 2))).run = false ∧
+    (∀ r, r < R → ((uartRx tw).out (runFn (uartRx tw) s0 (fun k => ln (k + 2)) r) (ln (r + 2))).valid = false) := by
+  intro R st
+  have hl := rx_last_cycle tw h0
+  have h := uart_rx_sample_points tw htw ln s0 hrun hc hacc hrx hr0 R hl.2
+  simp only at h
+  obtain ⟨hrun', hrx', htk, hdata, hdone⟩ := h
+  have hd : rxDone st = true := hdone.mpr hl.1
+  have hd' := hd
+  simp only [rxDone, Bool.and_eq_true, beq_iff_eq] at hd'
+  obtain ⟨⟨_, htick⟩, hc9⟩ := hd'
+  refine ⟨?_, ?_, ?_, ?_, ?_⟩
+  · show (rxDone st && st.rx) = ln R
+    rw [hd, hrx']; simp
+  · intro k hk
+    show st.data.testBit k = _
+    rw [hdata, hc9, rxData_testBit ln tw s0.data hdat 9 k hk (by omega)]
+    congr 2; omega
+  · show st.data < 256
+    rw [hdata]; exact rxData_lt ln tw s0.data hdat _
+  · show (rxNext tw st _).run = false
+    rw [rxNext_tick tw st _ hrun' htick]; simp [hc9]
+  · intro r hr
+    have e : r + 1 ≤ R := hr
+    have hmul : (r + 1) * tw ≤ rxSampleCycle tw 10 * tw := Nat.mul_le_mul_right tw e
+    have e1 : (r + 1) * tw = r * tw + tw := Nat.succ_mul r tw
+    have hlt : HALF32 + r * tw < 10 * M32 := by omega
+    have h := uart_rx_sample_points tw htw ln s0 hrun hc hacc hrx hr0 r (by omega)
+    simp only at h
+    show (rxDone _ && _) = false
+    cases hdd : rxDone (runFn (uartRx tw) s0 (fun k => ln (k + 2)) r) with
+    | false => rfl
+    | true => have := h.2.2.2.2.mp hdd; omega
+
+/-- **uart_rx_recovers_partial.**  Hypothesis: the synchronised line carries bit `b` of the frame of byte `d` at
+    sample point `b + 1`, for `b = 0 … 9` (what "line constant around each sample point" gives).  Then the byte is
+    produced, with the right value.  (Without the hypothesis the statement is false — any other line, see below.) -/
+theorem uart_rx_recovers_partial (tw : Nat) (h0 : 0 < tw) (htw : tw < M32) (ln : Nat → Bool) (s0 : RxSt)
+    (hrun : s0.run = true) (hc : s0.count = 0) (hacc : s0.acc = ⟨HALF32, false⟩) (hrx : s0.rx = ln 0)
+    (hr0 : s0.r0 = ln 1) (hdat : s0.data < 256) (d : Nat) (hd : d < 256)
+    (hline : ∀ b, b ≤ 9 → ln (rxSampleCycle tw (b + 1)) = frameBit d b) :
+    let R := rxSampleCycle tw 10
+    let o := (uartRx tw).out (runFn (uartRx tw) s0 (fun k => ln (k + 2)) R) (ln (R + 2))
+    o.valid = true ∧ o.data = d := by
+  intro R o
+  have h := uart_rx_frame tw h0 htw ln s0 hrun hc hacc hrx hr0 hdat
+  simp only at h
+  obtain ⟨hv, hbits, hlt, _, _⟩ := h
+  refine ⟨?_, ?_⟩
+  · show ((uartRx tw).out _ _).valid = true
+    rw [hv, hline 9 (by omega)]; rfl
+  · apply Nat.eq_of_testBit_eq
+    intro k
+    by_cases hk : k < 8
+    · show ((uartRx tw).out _ _).data.testBit k = _
+      rw [hbits k hk, hline (k + 1) (by omega)]
+      simp [frameBit]; omega
+    · have hk8 : 8 ≤ k := by omega
+      have p1 : (256 : Nat) ≤ 2 ^ k := by
+        have : (2 : Nat) ^ 8 ≤ 2 ^ k := Nat.pow_le_pow_right (by omega) hk8
+        omega
+      rw [Nat.testBit_lt_two_pow (Nat.lt_of_lt_of_le hlt p1), Nat.testBit_lt_two_pow (Nat.lt_of_lt_of_le hd p1)]
+
+/-- Negative witness for the unconditioned statement: a line stuck low after the start edge yields no byte
+    (`tw = 2^30`, four cycles per bit; the stop-bit check fails at the tenth sample). -/
+example :
+    let s0 : RxSt := ⟨false, false, false, true, 0, 0, ⟨HALF32, false⟩⟩
+    ((uartRx (2 ^ 30)).out (runFn (uartRx (2 ^ 30)) s0 (fun _ => false) (rxSampleCycle (2 ^ 30) 10)) false).valid = false := by
+  decide
+
+/-- Non-vacuity: the line of byte 0xA5 at four cycles per bit, seen one cycle late, is received as 0xA5. -/
+example :
+    let ln : Nat → Bool := fun k => frameBit 0xA5 ((k + 1) / 4)
+    let s0 : RxSt := ⟨ln 1, ln 0, true, true, 0, 0, ⟨HALF32, false⟩⟩
+    (uartRx (2 ^ 30)).out (runFn (uartRx (2 ^ 30)) s0 (fun k => ln (k + 2)) (rxSampleCycle (2 ^ 30) 10)) true
+      = ⟨true, 0xA5⟩ := by
+  decide
+
 end Litex.C19
